@@ -3,7 +3,7 @@
 # (scratch worktree, never /repo itself) with as many runs as the quick tier makes in total; writes
 # seeded/<ID>-<x>/detect.txt.  With no arguments: all kept changes, 4 at a time.
 cd /verif
-declare -A RUNS=([C01]=6400 [C02]=32000 [C03]=1200 [C04]=6400 [C05]=12000 [C06]=2400 [C07]=24000 [C08]=24000 [C09]=4800 [C10]=4800 [C11]=1200 [C12]=1600 [C13]=3200 [C14]=320 [C15]=240 [C16]=1200 [C17]=3200 [C18]=12000 [C20]=4320)
+declare -A RUNS=([C01]=6400 [C02]=32000 [C03]=1200 [C04]=6400 [C05]=12000 [C06]=2400 [C07]=24000 [C08]=24000 [C09]=4800 [C10]=4800 [C11]=1200 [C12]=1600 [C13]=3200 [C14]=320 [C15]=240 [C16]=1200 [C17]=3200 [C18]=24000 [C20]=4320)
 one() {
   d=$1; P=${d%%-*}; r=${RUNS[$P]}
   race=""; [ "$P" = C17 ] && race=1
